@@ -189,6 +189,64 @@ theorem sequence_reset_counterexample :
   intro h
   simp [KeepsSequence, ethAccept] at h
 
+/-! ### execution after the ante handler (what the messages do to the nonce) -/
+
+theorem ethAccept_some_eq (ns : List Nat) : ∀ seq s', ethAccept seq ns = some s' → s' = seq + ns.length ∧
+    ∀ n ∈ ns, n < s' := by
+  induction ns with
+  | nil => intro seq s' h; simp [ethAccept] at h; subst h; simp
+  | cons n rest ih =>
+    intro seq s' h
+    simp only [ethAccept] at h
+    split at h
+    · rename_i hn
+      obtain ⟨h1, h2⟩ := ih (seq + 1) s' h
+      refine ⟨by simp; omega, ?_⟩
+      intro x hx
+      rcases List.mem_cons.mp hx with hx | hx
+      · omega
+      · exact h2 x hx
+    · cases h
+
+theorem execAll_keep (ms : List EMsg) : ∀ cur, (∀ m ∈ ms, m.nonce < cur) → execAll true cur ms = cur := by
+  induction ms with
+  | nil => intro cur _; rfl
+  | cons m rest ih =>
+    intro cur h
+    have hm := h m (List.mem_cons_self)
+    have : execMsg true cur m = cur := by
+      unfold execMsg
+      split
+      · simp; omega
+      · rfl
+    simp only [execAll, List.foldl_cons, this]
+    exact ih cur (fun x hx => h x (List.mem_cons_of_mem _ hx))
+
+/-- **execution keeps what the ante handler advanced**: after an accepted transaction the sender's sequence is
+    seq + (number of messages), whatever mix of calls and contract creations it carries — so every executed nonce lies
+    behind the sequence and none of the messages is valid again -/
+theorem exec_keeps_ante_sequence (seq : Nat) (ms : List EMsg) (s' : Nat) (h : ethTx true seq ms = some s') :
+    s' = seq + ms.length ∧ ∀ m ∈ ms, m.nonce < s' := by
+  unfold ethTx at h
+  cases ha : ethAccept seq (ms.map (·.nonce)) with
+  | none => simp [ha] at h
+  | some a =>
+    simp only [ha, Option.map_some, Option.some.injEq] at h
+    obtain ⟨h1, h2⟩ := ethAccept_some_eq _ seq a ha
+    have hlt : ∀ m ∈ ms, m.nonce < a := fun m hm => h2 m.nonce (List.mem_map.mpr ⟨m, hm, rfl⟩)
+    rw [execAll_keep ms a hlt] at h
+    subst h
+    exact ⟨by simpa using h1, hlt⟩
+
+/-- the code before 37d9750: a creation followed by another message leaves the sequence at the second message's nonce —
+    that message, already executed, passes the ante handler again -/
+theorem creation_moves_nonce_back_counterexample :
+    ethTx false 5 [⟨5, true⟩, ⟨6, false⟩] = some 6 ∧ ethTx false 6 [⟨6, false⟩] = some 7 ∧
+    ethTx true 5 [⟨5, true⟩, ⟨6, false⟩] = some 7 ∧ ethTx true 7 [⟨6, false⟩] = none := by decide
+
+/-- the creation branch of ApplyMessageWithConfig has the shape `execMsg true` models (regenerated fact) -/
+theorem creation_never_moves_nonce_back : Facts.evmCreateNonceAfter = "max(nonce on entry, msg.Nonce()+1)" := by decide
+
 /-! ### binding of the signature to the content (cryptography assumed, explicitly) -/
 
 section Binding
